@@ -179,7 +179,7 @@ fn main() {
                 // f64 input, VecDeque backend (default trait bodies: iterator body when returned)
                 if rng.chance(1, 3) { em.case(cmp, &tags("f64", "deque"), &desc("f64", "deque"),
                     || format!("(run_feat_f {} false {} {} {})", fi, coq_nat(w), mp_coq, xs_coq),
-                    || { let d: VecDeque<f64> = xs.iter().cloned().collect();
+                    || { let d: VecDeque<f64> = vh::wrapped_deque(xs);
                          out_cells(guarded(|| call_valid!(fi_, d, w, mp, Vec<f64>))) }); }
                 // Option<f64> input -> Option<f64> output
                 if rng.chance(1, 3) { em.case(cmp, &tags("optf64", "vec"), &desc("optf64", "vec"),
